@@ -311,14 +311,19 @@ PROPERTIES['C12'] = {
                   'assumed contract in Verus; Kani harnesses on them are kept under kani/builder but exceed the time box (15 GB, > 20 min) and are not part of the check',
                   'native builder operations are one-line delegations to the generic builder (not extracted)'],
 }
+K_C18 = {'kind': 'kani', 'crate': 'builder', 'name': 'kani-add-dynamic-datum', 'repo_crates': ['truc'], 'flags': [], 'harnesses': ['c18_'], 'min_harnesses': 2,
+         'env': {'VERIF_KANI_DIR': os.path.join(VERIF, 'kani', 'incrate')}, 'extra_inputs': [os.path.join(VERIF, 'kani', 'incrate')], 'timeout': 2400,
+         'bounded': 'BOUNDED in the builder state only (first and second request on a fresh native builder); the resolver\'s answers (size, alignment, flag for two type names) are fully symbolic and the harnesses are loop-free in them',
+         'functions': ['truc/src/record/definition/builder/native/mod.rs NativeRecordDefinitionBuilder::add_dynamic_datum'],
+         'assumptions': ['alloc::fmt::format is stubbed by an empty string (error text is not part of the property; formatting dominates CBMC cost)']}
 PROPERTIES['C18'] = {
     'level': 'proof',
-    'units': lambda tier: [V_NATIVE],
+    'units': lambda tier: [V_NATIVE, K_C18],
     'explanation': 'For add_datum, add_datum_allow_uninit, add_datum_override and copy_datum (extracted from /repo) Verus proves that the details '
                    'handed to the inner builder are exactly the abstract resolver\'s answer (overrides applied field-wise; offset = usize::MAX): a body '
                    'consulting the host\'s size_of/align_of fails the postcondition. The strategies read only recorded size/align (unit layout).',
     'unchecked': ['second sentence of the property (type table answers what was registered, agrees with host, JSON round trip): BTreeMap<String,_> + serde_json, outside both verifiers',
-                  'add_dynamic_datum: AsRef<str> bound cannot be declared to this Verus; not under contract'],
+                  'add_dynamic_datum: AsRef<str> bound cannot be declared to this Verus; it is under a Kani harness-level contract instead (unit kani-add-dynamic-datum: recorded size / alignment / flag = the resolver\'s answer for the requested name, fully symbolic answers), bounded to the first two requests on a fresh builder and not counted among the proved obligations'],
 }
 
 GK = {'kind': 'kani', 'name': 'gk-corpus', 'crate': 'gk', 'repo_crates': ['truc', 'truc_runtime'], 'harnesses': ['::h::'],
